@@ -944,16 +944,15 @@ class Molecules:
     ) -> Self:
         """Shift and rotate molecules around their own coordinate."""
         rotvec = rotator.as_rotvec()
+        # The shift is defined in the coordinates of the molecule *before* the rotation
+        # (an alignment result means "rotate about the box center, then shift"), so it
+        # must not be rotated by ``rotator`` itself.
         if inv:
-            shift_corrected = rotator.apply(shift, inverse=True)
             return self.rotate_by_rotvec_internal(-rotvec).translate_internal(
-                shift_corrected
+                -np.asarray(shift)
             )
         else:
-            shift_corrected = rotator.apply(shift)
-            return self.translate_internal(shift_corrected).rotate_by_rotvec_internal(
-                rotvec
-            )
+            return self.translate_internal(shift).rotate_by_rotvec_internal(rotvec)
 
     def concat_with(
         self,
